@@ -607,7 +607,14 @@ class ASTStubGenerator(BaseStubGenerator, mypy.traverser.TraverserVisitor):
                 if not isinstance(get_proper_type(annotated_type), AnyType):
                     typename = self.print_annotation(annotated_type)
 
-            if actually_pos_only_args and arg_.pos_only:
+            if (
+                actually_pos_only_args
+                and arg_.pos_only
+                and kind.is_positional()
+                and pos_only_marker_position == i
+            ):
+                # Only a leading run of positional parameters can be positional-only
+                # (a name like "__x" marks any parameter, even keyword-only ones, as pos_only).
                 pos_only_marker_position += 1
 
             if kind.is_named() and not any(arg.name.startswith("*") for arg in args):
